@@ -154,6 +154,7 @@ pub fn run_prop(prop: &dyn Prop, tier: Tier, seed: u64) -> i32 {
     std::fs::create_dir_all(&outdir).expect("outdir");
     let findings = Findings::load();
     let mut violations: Vec<Violation> = vec![];
+    let mut confirmed_by_kind: BTreeMap<&str, u32> = BTreeMap::new();
     let mut infra_errors: Vec<String> = vec![];
     let mut known_lines: Vec<String> = vec![];
 
@@ -291,7 +292,7 @@ pub fn run_prop(prop: &dyn Prop, tier: Tier, seed: u64) -> i32 {
                             // confirmations are expensive (up to 60 s): after two confirmed
                             // violations of the same kind, further deaths are counted only
                             let kind = if hang { "clause:hang" } else { "clause:abort" };
-                            let already = violations.iter().filter(|v| v.sig.contains(kind)).count();
+                            let already = *confirmed_by_kind.get(kind).unwrap_or(&0);
                             let verdict = if already >= 2 {
                                 merged.duplicate_failures += 1;
                                 Confirm::FailedNormally
@@ -303,6 +304,7 @@ pub fn run_prop(prop: &dyn Prop, tier: Tier, seed: u64) -> i32 {
                                     if let Some(k) = findings.matching(id, &facts) {
                                         *known_excluded_parent.entry(k.id.clone()).or_insert(0) += 1;
                                     } else {
+                                        *confirmed_by_kind.entry(kind).or_insert(0) += 1;
                                         let mut s = facts.clone();
                                         s.sort();
                                         let sig = s.join("|");
@@ -342,7 +344,10 @@ pub fn run_prop(prop: &dyn Prop, tier: Tier, seed: u64) -> i32 {
                         infra_errors.push(format!("worker {}#{} left no result", job.stream, job.shard));
                     }
                     if let Some(skip) = next_skip {
-                        if job.respawns < 8 {
+                        // once hangs / aborts are established as violations, a shard that keeps
+                        // dying is not worth more than a few further attempts
+                        let established = confirmed_by_kind.values().any(|n| *n >= 2);
+                        if job.respawns < if established { 2 } else { 8 } {
                             queue.push(Job {
                                 stream: job.stream.clone(),
                                 shard: job.shard,
